@@ -40,6 +40,7 @@ type job struct {
 	Builtin *builtinCase `json:"builtin,omitempty"`
 	Recur   *recurCase   `json:"recur,omitempty"`
 	Access  *accessCase  `json:"access,omitempty"`
+	Witness string       `json:"witness,omitempty"`
 }
 
 // escaped is one Go panic that crossed otto's public API (recovered inside the worker).
@@ -124,6 +125,8 @@ func serve(raw json.RawMessage) json.RawMessage {
 		jr := openJournal(j.Journal)
 		res = runAccess(*j.Access, jr)
 		jr.close()
+	case "witness":
+		res = runWitness(j.Witness)
 	default:
 		res.Note = "unknown job kind " + j.Kind
 	}
@@ -359,6 +362,8 @@ func dispatch(j job) (res jobResult, fatal string) {
 	}
 	return res, first
 }
+
+func jsonUnmarshal(b []byte, v interface{}) error { return json.Unmarshal(b, v) }
 
 func oneLine(s string, max int) string {
 	s = strings.ReplaceAll(s, "\n", "\\n")
